@@ -163,7 +163,11 @@ func (c18) Gen(r *Rng, tier string, run int) *Trace {
 			}
 			g.emit(op, false)
 		case 14:
-			g.emit(Op{Obj: s0, M: "Push", Args: []Val{g.plain()}}, false)
+			if r.Bool(0.2) {
+				g.emit(Op{Obj: s0, M: r.PickStr("SetMutex", "Mutex")}, false)
+			} else {
+				g.emit(Op{Obj: s0, M: "Push", Args: []Val{g.plain()}}, false)
+			}
 		case 15:
 			if r.Bool(0.3) {
 				g.emit(Op{Obj: s0, M: "Reset"}, false)
